@@ -34,6 +34,9 @@ def all_vectors():
                 combos.append(("none", False, False, x, "0", "3"))
             for s, e in itertools.product(BOUNDS, BOUNDS):
                 combos.append(("none", False, False, "default", s, e))
+            for s, e in (("3", "3"), ("3", "1"), ("0", "0"), ("0", "1"), ("2^31-1", "2^31")):
+                for f in ("none", "absent"):
+                    combos.append((f, False, True, "default", s, e))
             for f, t, p, x, s, e in combos:
                 key = (c, a, f, t, p, x, s, e)
                 if key in seen:
